@@ -17,7 +17,10 @@ ID = "C20"
 RELABELS = {
     "str": {1: "a", 2: "b", 3: "c"},
     "str_rev": {1: "z", 2: "y", 3: "x"},
-    "str_len": {1: "a", 2: "bb", 3: "third"},          # labels of different lengths; the longest first seen in a partial_fit
+    "str_len": {1: "a", 2: "bb", 3: "third"},
+    "int_zero": {1: 0, 2: 5, 3: 7},                   # falsy labels: 0, 0.0, ""
+    "float_zero": {1: 0.0, 2: 0.5, 3: 1.5},
+    "str_empty": {1: "", 2: "b", 3: "c"},          # labels of different lengths; the longest first seen in a partial_fit
     "float": {1: 1.5, 2: 0.5, 3: 0.25},
     "int_rev": {1: 30, 2: 20, 3: 10},
 }
@@ -69,7 +72,7 @@ def relabel_value(outs, mp):
         if isinstance(v, dict):
             return v
         return mp.get(v, v)
-    kinds = ["exp", "pred", "exp", "pred", "arms", "arms"]
+    kinds = ["exp", "pred", "exp", "pred", "arms", "arms", "exp", "arms"]
     return [keys(o) if k == "exp" else labels(o) for k, o in zip(kinds, outs)]
 
 
@@ -82,6 +85,12 @@ def scenario_a(ln, nn, seed, mp):
     ops.apply(m, ["fit", d, [1, 0, 1, 1, 0, 1], None if cf else X6])
     outs.append(ops.call(m, "predict_expectations", None if cf else Q))
     ops.apply(m, ["add_arm", mp[3]])
+    if nn == "none":
+        # the new arm is cold and closest to the first arm: it must be initialised from it whatever the labels are
+        ops.apply(m, ["warm_start", [[mp[1], [1.0, 0.0]], [mp[2], [0.0, 1.0]], [mp[3], [1.0, 0.1]]], 1.0])
+        outs_ws = [ops.call(m, "predict_expectations", None if cf else Q), ops.norm(list(m.cold_arms))]
+    else:
+        outs_ws = [ops.call(m, "predict_expectations", None if cf else Q), []]
     ops.apply(m, ["partial_fit", [mp[3], mp[1], mp[3]], [1, 0, 1], None if cf else [[1, 1], [0, 1], [2, 2]]])
     outs.append(ops.call(m, "predict", None if cf else Q))
     outs.append(ops.call(m, "predict_expectations", None if cf else Q[:1]))
@@ -89,6 +98,7 @@ def scenario_a(ln, nn, seed, mp):
     outs.append(ops.call(m, "predict", None if cf else Q))
     outs.append(ops.norm(list(m.arms)))
     outs.append(ops.norm(list(m.cold_arms)))
+    outs += outs_ws
     return outs
 
 
